@@ -227,3 +227,14 @@ V('C09', 'root-schema-left-out-whenever-db-known', 'edb/server/compiler_pool/poo
             else:
                 dbname = None
 ''', 'C09.R11', 'root-schema-left-out')
+# round 5: repair of RELEASE SAVEPOINT cacheability
+V('C09', 'revert-fix-release-savepoint-cacheable', 'edb/server/compiler/compiler.py',
+  'edb.server.compiler.compiler._compile_ql_transaction',
+  "        sql = f'RELEASE SAVEPOINT {pgname}'.encode()\n        cacheable = False\n",
+  "        sql = f'RELEASE SAVEPOINT {pgname}'.encode()\n",
+  'C09.R13', 'ReleaseSavepoint:not-cacheable')
+V('C09', 'declare-savepoint-cacheable', 'edb/server/compiler/compiler.py',
+  'edb.server.compiler.compiler._compile_ql_transaction',
+  "        sql = f'SAVEPOINT {pgname}'.encode()\n\n        cacheable = False\n",
+  "        sql = f'SAVEPOINT {pgname}'.encode()\n\n",
+  'C09.R13', 'DeclareSavepoint:not-cacheable')
